@@ -24,12 +24,19 @@ done
 # module file that points the harness at the repository under test
 sed "s#=> /repo#=> $VERIF_REPO#" "$HERE/harness/go.mod" > "$S/go.mod"
 cp "$VERIF_REPO/go.sum" "$S/go.sum"
-( cd "$HERE/harness" && go build -modfile="$S/go.mod" -tags verif -o "$S/vcheck" ./cmd/vcheck ) > "$S/build.log" 2>&1
+COVER=()
+if [ "$TIER" = thorough ] && [ "${VERIF_NOCOVER:-0}" != 1 ]; then
+  # thorough tier: statement coverage of the repository's packages is recorded as evidence of reach (never a verdict)
+  PK="github.com/acekingke/yaccgo"
+  COVER=(-cover "-coverpkg=$PK/Parser,$PK/Grammar,$PK/LALR,$PK/LR,$PK/Items,$PK/Builder,$PK/Utils,$PK/Graph,$PK/Symbol,$PK/Rules")
+  mkdir -p "$S/cov"; export GOCOVERDIR="$S/cov" VERIF_COVDIR="$S/cov"
+fi
+( cd "$HERE/harness" && go build -modfile="$S/go.mod" -tags verif "${COVER[@]}" -o "$S/vcheck" ./cmd/vcheck ) > "$S/build.log" 2>&1
 if [ $? -ne 0 ]; then
   # the harness does not build against this tree: the repository (or a hook) changed an interface the monitors rely on
   echo "INCONCLUSIVE property=$ID: harness does not build against $VERIF_REPO"; head -30 "$S/build.log"; exit 2
 fi
-( cd "$VERIF_REPO" && go build -o "$S/yaccgo" ./yaccgo ) > "$S/build2.log" 2>&1 || { echo "INCONCLUSIVE property=$ID: yaccgo CLI does not build"; head -30 "$S/build2.log"; exit 2; }
+( cd "$VERIF_REPO" && go build "${COVER[@]}" -o "$S/yaccgo" ./yaccgo ) > "$S/build2.log" 2>&1 || { echo "INCONCLUSIVE property=$ID: yaccgo CLI does not build"; head -30 "$S/build2.log"; exit 2; }
 export VERIF_YACCGO="$S/yaccgo"
 if [ $MODE = replay ]; then
   # ./check.sh replay <ID> <replay dir>   (directory name: <tier>-seed<N>-case<M>)
